@@ -585,10 +585,17 @@ Den(prog) == DenDev(prog, {})
 (* Comparing an observed table with the denoted bag.                        *)
 RowMatch(e, o) == DOMAIN e = DOMAIN o /\ \A f \in DOMAIN e : VMatch(e[f], o[f])
 
+RowHasAny(e) == \E f \in DOMAIN e : HasAny(e[f])
+
 RECURSIVE BagMatch(_, _)
 BagMatch(es, os) ==
   IF es = <<>> THEN os = <<>>
-  ELSE \E i \in 1..Len(os) : RowMatch(es[1], os[i]) /\ BagMatch(Tail(es), RemoveAt(os, i))
+  ELSE LET cands == {i \in 1..Len(os) : RowMatch(es[1], os[i])}
+       IN IF cands = {} THEN FALSE
+          ELSE IF ~RowHasAny(es[1])
+          \* without a tie the matching rows are interchangeable: no backtracking
+          THEN BagMatch(Tail(es), RemoveAt(os, CHOOSE i \in cands : \A j \in cands : i <= j))
+          ELSE \E i \in cands : BagMatch(Tail(es), RemoveAt(os, i))
 
 SeqMatch(es, os) == Len(es) = Len(os) /\ \A i \in 1..Len(es) : RowMatch(es[i], os[i])
 
